@@ -65,7 +65,10 @@ async fn node_view(h: &ReplicatedShardHandle) -> Value {
     json!({"rs": rs, "served": served(h).await})
 }
 
-fn cmd_of(step: &Value) -> Command {
+/// `with_get`: SET .. NX carries the GET option too (same effect on the keyspace; with XX or alone GET
+/// turns a hash key into a WRONGTYPE error, which the abstract op does not know;
+/// the reply is then the old value, which is what the "was it applied?" rule of the glue has to read).
+fn cmd_of(step: &Value, with_get: bool) -> Command {
     let v = step["v"].as_str().unwrap_or("");
     let f = step["f"].as_str().unwrap_or("");
     let e = step["e"].as_i64().unwrap_or(-1);
@@ -73,6 +76,7 @@ fn cmd_of(step: &Value) -> Command {
     match step["op"].as_str().unwrap() {
         "set" if e >= 0 => argv_cmd(&["SET", KEY, v, "PX", &es]),
         "set" => argv_cmd(&["SET", KEY, v]),
+        "setnx" if with_get => argv_cmd(&["SET", KEY, v, "NX", "GET"]),
         "setnx" => argv_cmd(&["SET", KEY, v, "NX"]),
         "setxx" => argv_cmd(&["SET", KEY, v, "XX"]),
         "getset" => argv_cmd(&["GETSET", KEY, v]),
@@ -90,13 +94,14 @@ struct Cluster {
     deltas: BTreeMap<u64, (usize, ReplicationDelta)>, // seq -> (origin, delta)
     nsent: u64,
     run: usize,
+    ncmd: u64,
 }
 
 impl Cluster {
     fn new(run: usize, nn: usize, log: &mut Vec<Value>) -> Cluster {
         let nodes = (1..=nn).map(|i| ReplicatedShardActor::spawn(ReplicaId::new(i as u64), ConsistencyLevel::Eventual, 0)).collect();
         log.push(json!({"a": "reset", "run": run, "n": nn}));
-        Cluster { nodes, deltas: BTreeMap::new(), nsent: 0, run }
+        Cluster { nodes, deltas: BTreeMap::new(), nsent: 0, run, ncmd: 0 }
     }
     /// Executes one step; returns the sequence number of the delta a client step produced (0 = none).
     async fn step(&mut self, st: &Value, log: &mut Vec<Value>) -> u64 {
@@ -105,7 +110,9 @@ impl Cluster {
         match st["a"].as_str().unwrap() {
             "client" => {
                 let n = st["n"].as_u64().unwrap() as usize;
-                let (resp, d) = self.nodes[n - 1].execute(cmd_of(st)).await;
+                self.ncmd += 1;
+                let with_get = (self.ncmd + self.run as u64) % 3 == 0;
+                let (resp, d) = self.nodes[n - 1].execute(cmd_of(st, with_get)).await;
                 ev["err"] = json!(matches!(resp, RespValue::Error(_)));
                 ev["reply"] = json!(format!("{resp:?}"));
                 if let Some(d) = d {
